@@ -345,8 +345,19 @@ def child_digests(seeds):
 
 
 def extra_phase(tier, base_seed, prop="C01"):
-    if prop != "C01":
+    from .. import bigworld
+    if prop == "C04":
         return {}
+    big = bigworld.prefix_phase(prop, tier, base_seed)
+    if prop != "C01":
+        return big
+    out = hash_seed_phase(tier, base_seed)
+    out["violations"] = list(out.get("violations", [])) + big.pop("violations", [])
+    out.update(big)
+    return out
+
+
+def hash_seed_phase(tier, base_seed):
     import json
     import subprocess
     import sys
